@@ -14,6 +14,7 @@ import (
 	"github.com/elastos/Elastos.ELA/common"
 	"github.com/elastos/Elastos.ELA/common/config"
 	"github.com/elastos/Elastos.ELA/core/types"
+	"github.com/elastos/Elastos.ELA/core/types/interfaces"
 	"github.com/elastos/Elastos.ELA/core/types/payload"
 	"github.com/elastos/Elastos.ELA/dpos/state"
 )
@@ -44,10 +45,13 @@ type Sim struct {
 	// OwnArbiter makes account 0 the only origin arbiter (always on duty), so that side-chain mining
 	// proofs (SideChainPow transactions) can be signed by the harness.
 	OwnArbiter bool
-	dir        string
-	seq        int
+	// CRAssets makes account 4 the CR assets address and account 3 the CR expenses address (ops `appr`, `ctx`).
+	CRAssets bool
+	dir      string
+	seq      int
 	// LastErr is the error text of the last deliver/submit (for oracles and debugging).
 	LastErr string
+	LastTx  interfaces.Transaction // the transaction of the last `ctx` op
 }
 
 func short(h common.Uint256) string {
@@ -81,6 +85,15 @@ func (s *Sim) options() Options {
 			ac, _ := accountFor(0)
 			pk, _ := ac.PublicKey.EncodePoint(true)
 			p.DPoSConfiguration.OriginArbiters = []string{hex.EncodeToString(pk)}
+		}
+		if s.CRAssets {
+			// the CR assets / CR expenses addresses are configuration: give them to accounts 4 and 3, so that a
+			// "CR assets" coin can also be spent by an ordinary signed transfer
+			a4, _ := accountFor(4)
+			a3, _ := accountFor(3)
+			h4, h3 := a4.ProgramHash, a3.ProgramHash
+			p.CRConfiguration.CRAssetsProgramHash = &h4
+			p.CRConfiguration.CRExpensesProgramHash = &h3
 		}
 		if s.Retarget {
 			p.PowConfiguration.PowLimitBits = 0x2000ffff
@@ -289,6 +302,32 @@ func (s *Sim) Exec(t []string) string {
 		if err := s.N.Submit(tx); err != nil {
 			s.LastErr = err.Error()
 			return "err"
+		}
+		return "ok"
+	case "appr": // appr <0|1> <amount>: the committee's "appropriation needed" flag and amount (set directly, as
+		// the CR election that computes them is outside the modelled era)
+		c := s.N.Chain.GetCRCommittee()
+		c.NeedAppropriation = t[1] != "0"
+		v, _ := strconv.ParseInt(t[2], 10, 64)
+		c.AppropriationAmount = common.Fixed64(v)
+		return "ok"
+	case "ctx": // ctx <height> <tx>: BlockChain.CheckTransactionContext at an explicit block height
+		hgt, _ := strconv.Atoi(t[1])
+		ts, err := ParseTx(t[2:])
+		if err != nil {
+			panic("harness: bad tx spec: " + err.Error())
+		}
+		tx, err := s.N.BuildTx(ts, uint32(hgt))
+		if err != nil {
+			panic("harness: " + err.Error())
+		}
+		if ID(tx.Hash()) != ts.ID {
+			panic("harness: tx id " + ts.ID + " rebuilt " + ID(tx.Hash()))
+		}
+		s.LastTx = tx
+		if _, cerr := s.N.Chain.CheckTransactionContext(uint32(hgt), tx, 0, 0); cerr != nil {
+			s.LastErr = cerr.Error()
+			return fmt.Sprintf("err %d", -int(cerr.Code()))
 		}
 		return "ok"
 	case "irr":
